@@ -68,7 +68,8 @@ def has_unguarded_cycle(text):
     # parenthesised unions count as depth 0 for this purpose: strip parentheses first
     graph2 = {}
     for n, b in decls.items():
-        b2 = depth0(b.replace("(", " ").replace(")", " "))
+        # parentheses and Readonly<...> (which the compiler treats as the identity) are transparent
+        b2 = depth0(re.sub(r"\bReadonly\s*<", " ", b).replace("(", " ").replace(")", " "))
         graph2[n] = {m for m in decls if re.search(r"\b%s\b" % re.escape(m), b2)}
     def cyc(n, path):
         if n in path: return True
@@ -152,6 +153,19 @@ def check(run):
         use = r.choice(["Kind.M0", "Kind.M1", "Kind", "{ k: Kind.M%d }" % r.randrange(len(inits))])
         entry = 'import { Kind } from "./lib";\nexport type T = %s;\nparse.buildParsers<{ T: T }>();' % use
         projects.append([("entry.ts", entry), ("lib.ts", lib)]); tags.append("enum-across-modules")
+    # cycles made of aliases only (tsc rejects them), used where the type goes straight to the semantic engine or to the printer
+    CYCLES = ["type A = B;\ntype B = A;", "type A = A;", "type Id<T> = T;\ntype A = Id<A>;", "type A = B;\ntype B = C;\ntype C = A;",
+              "type A = Readonly<A>;"]
+    USES = ["A extends string ? 1 : 2", "string extends A ? 1 : 2", "Exclude<A, string>", "Exclude<string | number, A>",
+            "{ a: Extract<A | number, number> }", "A", "{ a: A }", "Array<A>", "keyof A", "A[\"x\"]", "[A] extends [string] ? 1 : 2",
+            "Omit<{ a: A; b: 1 }, \"b\">"]
+    for ci, cyc in enumerate(CYCLES):
+        for use in (USES if not quick else r.sample(USES, 7)):
+            projects.append([("entry.ts", "%s\nexport type T = %s;\nparse.buildParsers<{ T: T }>();" % (cyc, use))]); tags.append("alias-cycle")
+    for use in USES[:6]:
+        projects.append([("entry.ts", 'import { A } from "./m0";\nexport type T = %s;\nparse.buildParsers<{ T: T }>();' % use),
+                         ("m0.ts", 'import { B } from "./m1";\nexport type A = B;'), ("m1.ts", 'import { A } from "./m0";\nexport type B = A;')])
+        tags.append("alias-cycle")
     # targeted programs: shapes on which totality has failed before (minimised corpus)
     CORPUS = [
         'export type K = "a" | "b";\nexport type B = K;\nexport type C = B;\nexport type R = Record<C, number>;\nparse.buildParsers<{ R: R }>();',
@@ -220,7 +234,7 @@ def check(run):
     cov["distinct_nontrivial"] = len({tuple(f) for f in map(lambda fs: tuple(t for _, t in fs), projects)})
     cov["rule"] = ("valid random programs (single- and multi-file), one program per unsupported TypeScript construct, token-level "
                    "mutations of valid programs (delete / duplicate / swap / replace one token), projects with missing, cyclic and "
-                   "self imports; every project compiled in its own process under a 20 s watchdog with a panic hook; distinct = distinct texts")
+                   "self imports, cycles made only of aliases used in conditional types / Exclude / plain positions; every project compiled in its own process under a 20 s watchdog with a panic hook; distinct = distinct texts")
     cov["correspondence"]["Model/Flatten.v extract_union vs the panics/overflows observed"] = {
         "cases": len(known), "disagreements": 0, "note": "the model's refutation witness (alias cycle through a union) is replayed on the implementation"}
     cov["spec_checks"]["outcome is code or >=1 diagnostic inside its file; module loads and builds every requested parser"] = {
